@@ -75,9 +75,9 @@ Section Index.
   Lemma push_again_pj (s : server A) p : pj (fst (push_again A fx s p)) = p.
   Proof. unfold push_again. destruct (push_all_again _ _ _ _). reflexivity. Qed.
 
-  Lemma did_open_idx dk (s : server A) f t : idx_eq (pj s) -> idx_eq (pj (fst (did_open A fx dk s f t))).
+  Lemma did_open_base_idx dk (s : server A) f t : idx_eq (pj s) -> idx_eq (pj (fst (did_open_base A fx dk s f t))).
   Proof.
-    intros H. unfold did_open.
+    intros H. unfold did_open_base.
     set (p0 := set_lru A (pj s) (frem f (p_lru (pj s)))).
     set (s0 := {| pj := p0; cache := aset (cache s) f t; ds := unmark_clean (ds s) f |}).
     assert (H0 : idx_eq p0) by exact H.
@@ -92,12 +92,25 @@ Section Index.
     destruct (clear_change (ds s1) f). exact H1.
   Qed.
 
-  Lemma did_change_idx (s : server A) f t : idx_eq (pj s) -> idx_eq (pj (fst (did_change A s f t))).
+  Lemma analyse_buffer_idx (s : server A) f t : idx_eq (pj s) -> idx_eq (pj (fst (analyse_buffer A s f t))).
   Proof.
-    intros H. unfold did_change. destruct (aget (cache s) f); [|exact H].
+    intros H. unfold analyse_buffer.
     destruct (is_nil (syn A t)).
     - destruct (clear_change (ds s) f). exact H.
     - destruct (insert_change (ds s) f (syn A t)). exact H.
+  Qed.
+
+  Lemma did_change_idx (s : server A) f t : idx_eq (pj s) -> idx_eq (pj (fst (did_change A s f t))).
+  Proof.
+    intros H. unfold did_change. destruct (aget (cache s) f); [|exact H]. apply analyse_buffer_idx. exact H.
+  Qed.
+
+  Lemma did_open_idx dk (s : server A) f t : idx_eq (pj s) -> idx_eq (pj (fst (did_open A fx dk s f t))).
+  Proof.
+    intros H. unfold did_open. pose proof (did_open_base_idx dk s f t H) as H1.
+    destruct (did_open_base A fx dk s f t) as [s2 ps]. cbn [fst] in H1.
+    destruct (fix_didopen fx && open_differs A dk f t); [|exact H1].
+    pose proof (analyse_buffer_idx s2 f t H1) as H2. destruct (analyse_buffer A s2 f t) as [s3 ps3]. exact H2.
   Qed.
 
   Lemma did_save_idx dk (s : server A) f t : idx_eq (pj s) -> idx_eq (pj (fst (did_save A fx dk s f t))).
@@ -158,13 +171,14 @@ Section Index.
 
   Lemma act_idx (w : world A) a : idx_eq (pj (sv w)) -> idx_eq (pj (sv (fst (act A fx w a)))).
   Proof.
-    intros H. destruct a as [f|f t|f|f|l|e]; cbn [act].
+    intros H. destruct a as [f|f t|f|f|l|e|f t]; cbn [act].
     - destruct (aget (disk w) f); [|exact H]. destruct (aget (ebuf w) f); [exact H|]. apply steps_idx. exact H.
     - destruct (aget (ebuf w) f); [|exact H]. apply steps_idx. exact H.
     - destruct (aget (ebuf w) f); [|exact H]. apply steps_idx. exact H.
     - destruct (aget (ebuf w) f); [|exact H]. apply steps_idx. exact H.
     - apply steps_idx. exact H.
     - apply step_idx. exact H.
+    - destruct (aget (disk w) f); [|exact H]. destruct (aget (ebuf w) f); [exact H|]. apply steps_idx. exact H.
   Qed.
 
   Lemma run_from_idx h : forall (w : world A) ps0,
